@@ -298,7 +298,7 @@ func c09c(c *Ctx) {
 			c.Unk(inst, "addChainOrPreChain call not found")
 			continue
 		}
-		lit, ok := ast.Unparen(argByName(f.Info(), calls[0].Call, "checkType")).(*ast.FuncLit)
+		lit, ok := ast.Unparen(f.ResolveDeep(argByName(f.Info(), calls[0].Call, "checkType")).E).(*ast.FuncLit)
 		if !ok {
 			c.Unk(inst, "type check is not a literal")
 			continue
